@@ -56,7 +56,9 @@ ActionFails(e) ==
 InvNames == {"RecordsAligned", "Partition", "NonEmpty", "CountersSane", "BlockSound", "Enclosed", "VolumeRecords"}
 InvHolds(n) ==
   CASE n = "RecordsAligned" -> RecordsAligned
-    [] n = "Partition" -> Partition
+    \* (the log may hold several unions, each with its own construction points 1..npts)
+    [] n = "Partition" -> /\ \A i, j \in DOMAIN recs : i # j => recs[i].pts \cap recs[j].pts = {}
+                          /\ Pts(recs) \cup trimmed = 1..Log[l].npts /\ Pts(recs) \cap trimmed = {}
     [] n = "NonEmpty" -> NonEmpty
     [] n = "CountersSane" -> CountersSane
     [] n = "BlockSound" -> BlockSound
